@@ -23,6 +23,7 @@ import (
 	"fmt"
 	"io/ioutil"
 	"net/url"
+	"strings"
 	"sync/atomic"
 
 	"github.com/golang/snappy"
@@ -142,7 +143,7 @@ func (a *adapter) Header(
 ) error {
 	if !a.isEnabled() {
 		for _, h := range headers {
-			if h.Name == "content-type" && h.Value == "application/grpc" {
+			if h.Name == "content-type" && isGRPCContentType(h.Value) {
 				atomic.StoreInt32(a.enabled, 1)
 				break
 			}
@@ -169,6 +170,17 @@ func (a *adapter) Header(
 		}
 	}
 	return a.processor.Header(headers, streamEnded, priority)
+}
+
+// isGRPCContentType reports whether a content-type value announces gRPC: "application/grpc",
+// optionally followed by a "+subtype" (application/grpc+proto, application/grpc+json) or a
+// ";parameter". See https://github.com/grpc/grpc/blob/master/doc/PROTOCOL-HTTP2.md#requests.
+func isGRPCContentType(v string) bool {
+	const base = "application/grpc"
+	if !strings.HasPrefix(v, base) {
+		return false
+	}
+	return len(v) == len(base) || v[len(base)] == '+' || v[len(base)] == ';'
 }
 
 func (a *adapter) Data(data []byte, streamEnded bool) error {
